@@ -11,21 +11,42 @@ Import ListNotations.
 Local Open Scope Z_scope.
 
 (* monomorphic constructors: the cases files are large and tuples/options are slow to elaborate *)
-Inductive oitem := It (f u : Z).
-Inductive opull := NoPull | Pulled (f u : Z).
+Inductive okey := K (m f : Z).                    (* (media index, format index within the media) *)
+Inductive oitem := It (m f u : Z).
+Inductive opull := NoPull | Pulled (m f u : Z).
 Inductive osnap := Sn (r d o : Z).
 Inductive ofin := Fin (r : Z) (delivered : list oitem) (joined : bool).
-Inductive ostep := Sto (l : label) (p : opull) (snap : list osnap) (subs : list (list Z)).
+Inductive olabel :=
+| LWrite (ss m f u : Z) | LPull (r : Z) | LDone (r : Z) (ok : bool) | LOnData (r m f : Z) | LAdd (r : Z)
+| LRemBegin (r : Z) | LRemClose (r : Z) | LRemJoin (r : Z) | LNewSub (ss : Z).
+(* Sto: a step with what was observed after it; Reg: an OnData call with the (media, format) pairs found in the
+   Reader's own r.onDatas after it *)
+Inductive ostep :=
+| Sto (l : olabel) (p : opull) (snap : list osnap) (subs : list (list Z))
+| Reg (r m f : Z) (keys : list okey).
 
-Inductive case0 := Hist (fmts : list Z) (qsize : Z) (steps : list ostep) (final : list ofin).
+Inductive case0 := Hist (fmts : list okey) (qsize : Z) (steps : list ostep) (final : list ofin).
 Definition case := case0.
 
-Definition un_item (i : oitem) : Z * Z := match i with It f u => (f, u) end.
-Definition un_pull (p : opull) : option (Z * Z) := match p with NoPull => None | Pulled f u => Some (f, u) end.
+Definition un_key (k : okey) : fkey := match k with K m f => (m, f) end.
+Definition un_item (i : oitem) : item := match i with It m f u => ((m, f), u) end.
+Definition un_pull (p : opull) : option item := match p with NoPull => None | Pulled m f u => Some ((m, f), u) end.
 Definition un_snap (x : osnap) : Z * Z * Z := match x with Sn r d o => (r, d, o) end.
-Definition un_fin (x : ofin) : Z * list (Z * Z) * bool := match x with Fin r del j => (r, map un_item del, j) end.
+Definition un_fin (x : ofin) : Z * list item * bool := match x with Fin r del j => (r, map un_item del, j) end.
+Definition un_label (l : olabel) : label :=
+  match l with
+  | LWrite ss m f u => Write ss (m, f) u
+  | LPull r => ReaderPull r
+  | LDone r ok => ReaderDone r ok
+  | LOnData r m f => OnData r m f
+  | LAdd r => AddReader r
+  | LRemBegin r => RemoveBegin r
+  | LRemClose r => RemoveClose r
+  | LRemJoin r => RemoveJoin r
+  | LNewSub ss => NewSub ss
+  end.
 
-Definition item_eqb (a b : Z * Z) : bool := (fst a =? fst b) && (snd a =? snd b).
+Definition item_eqb (a b : item) : bool := keyb (fst a) (fst b) && (snd a =? snd b).
 
 Definition list_eqb {A} (eqb : A -> A -> bool) :=
   fix go (a b : list A) : bool :=
@@ -35,7 +56,7 @@ Definition list_eqb {A} (eqb : A -> A -> bool) :=
     | _, _ => false
     end.
 
-Definition opt_item_eqb (a b : option (Z * Z)) : bool :=
+Definition opt_item_eqb (a b : option item) : bool :=
   match a, b with
   | Some x, Some y => item_eqb x y
   | None, None => true
@@ -55,14 +76,17 @@ Definition snap_ok (s : state) (snap : list (Z * Z * Z)) : bool :=
                                    end
                     end) snap.
 
-Fixpoint subs_ok (s : state) (fmts : list Z) (subs : list (list Z)) : bool :=
+Definition same_keys (a b : list fkey) : bool :=
+  forallb (fun x => memK x b) a && forallb (fun x => memK x a) b.
+
+Fixpoint subs_ok (s : state) (fmts : list fkey) (subs : list (list Z)) : bool :=
   match fmts, subs with
   | [], [] => true
   | f :: fr, l :: lr => same_set (s_onDatas s f) l && subs_ok s fr lr
   | _, _ => false
   end.
 
-Definition pull_ok (s : state) (l : label) (pulled : option (Z * Z)) : bool :=
+Definition pull_ok (s : state) (l : label) (pulled : option item) : bool :=
   match l with
   | ReaderPull r =>
       match s_readers s r with
@@ -79,16 +103,21 @@ Definition pull_ok (s : state) (l : label) (pulled : option (Z * Z)) : bool :=
 Fixpoint steps_ok (s : state) (steps : list ostep) : option state :=
   match steps with
   | [] => Some s
-  | Sto l p snap0 subs :: t =>
-      let pulled := un_pull p in let snap := map un_snap snap0 in
+  | Sto l0 p snap0 subs :: t =>
+      let l := un_label l0 in let pulled := un_pull p in let snap := map un_snap snap0 in
       match step s l with
       | Some s1 => if pull_ok s1 l pulled && snap_ok s1 snap && subs_ok s1 (s_formats s1) subs
                    then steps_ok s1 t else None
       | None => None
       end
+  | Reg r m f keys :: t =>
+      match step s (OnData r m f) with
+      | Some s1 => if same_keys (keys_of (s_prep s1 r)) (map un_key keys) then steps_ok s1 t else None
+      | None => None
+      end
   end.
 
-Definition final_ok (s : state) (final : list (Z * list (Z * Z) * bool)) : bool :=
+Definition final_ok (s : state) (final : list (Z * list item * bool)) : bool :=
   forallb (fun e => match e with
                     | (r, del, joined) =>
                         match s_readers s r with
@@ -101,7 +130,7 @@ Definition final_ok (s : state) (final : list (Z * list (Z * Z) * bool)) : bool 
 Definition mismatch (c : case) : bool :=
   match c with
   | Hist fmts qsize steps final =>
-      match steps_ok (init fmts (Z.to_nat qsize)) steps with
+      match steps_ok (init (map un_key fmts) (Z.to_nat qsize)) steps with
       | Some s => negb (final_ok s (map un_fin final))
       | None => true
       end
@@ -110,13 +139,13 @@ Definition mismatch (c : case) : bool :=
 (* ---- the property on the observed schedule alone (does not use `step`) --------------------------- *)
 
 Record srd := {
-  sr_id : Z; sr_subs : list Z;
+  sr_id : Z; sr_subs : list fkey; (* the (media, format) pairs of the reader's OnData calls *)
   sr_att : bool;          (* between AddReader and RemoveBegin *)
   sr_closed : bool;       (* RemoveClose seen *)
   sr_joined : bool;       (* RemoveJoin seen: RemoveReader has returned *)
   sr_busy : bool;         (* a callback is running *)
-  sr_off : list (Z * Z);  (* written for this reader by the current publisher, in write order *)
-  sr_pulled : list (Z * Z); (* callbacks started, in order *)
+  sr_off : list item;     (* written for this reader by the current publisher, in write order *)
+  sr_pulled : list item;  (* callbacks started, in order *)
   sr_done : nat;          (* callbacks returned *)
   sr_disc : Z; sr_occ : Z; (* last snapshot *)
 }.
@@ -127,7 +156,7 @@ Definition upd_srd (f : srd -> srd) (r : Z) (rs : list srd) : list srd :=
 Fixpoint find_srd (r : Z) (rs : list srd) : option srd :=
   match rs with [] => None | x :: t => if sr_id x =? r then Some x else find_srd r t end.
 
-Fixpoint is_subseq (a b : list (Z * Z)) : bool :=
+Fixpoint is_subseq (a b : list item) : bool :=
   match b with
   | [] => match a with [] => true | _ => false end
   | y :: b' => match a with
@@ -141,13 +170,19 @@ Fixpoint nodupb (l : list Z) : bool :=
 
 Definition cur_is (cur : option Z) (ss : Z) : bool := match cur with Some c => c =? ss | None => false end.
 
-(* effect of a label on the bookkeeping + the checks that belong to the label; None = property violated *)
-Definition spec_label (cur : option Z) (rs : list srd) (l : label) (pulled : option (Z * Z))
+(* the pairs reader r asked for so far (its OnData calls), from the list of all (reader, pair) calls *)
+Definition asked_by (r : Z) (pre : list (Z * fkey)) : list fkey :=
+  map snd (filter (fun e => fst e =? r) pre).
+
+(* effect of a label on the bookkeeping + the checks that belong to the label; None = property violated.
+   `pre`: the OnData calls made so far. *)
+Definition spec_label (pre : list (Z * fkey)) (cur : option Z) (rs : list srd) (l : label) (pulled : option item)
   : option (option Z * list srd) :=
   match l with
   | NewSub ss => Some (Some ss, rs)
-  | AddReader r fmts =>
-      Some (cur, rs ++ [{| sr_id := r; sr_subs := fmts; sr_att := true; sr_closed := false; sr_joined := false;
+  | OnData _ _ _ => Some (cur, rs)
+  | AddReader r =>
+      Some (cur, rs ++ [{| sr_id := r; sr_subs := asked_by r pre; sr_att := true; sr_closed := false; sr_joined := false;
                            sr_busy := false; sr_off := []; sr_pulled := []; sr_done := 0; sr_disc := 0; sr_occ := 0 |}])
   | RemoveBegin r =>
       Some (cur, upd_srd (fun x => {| sr_id := sr_id x; sr_subs := sr_subs x; sr_att := false; sr_closed := sr_closed x;
@@ -170,7 +205,7 @@ Definition spec_label (cur : option Z) (rs : list srd) (l : label) (pulled : opt
       | None => Some (cur, rs)
       end
   | Write ss f u =>
-      Some (cur, map (fun x => if sr_att x && memZ f (sr_subs x) && cur_is cur ss
+      Some (cur, map (fun x => if sr_att x && memK f (sr_subs x) && cur_is cur ss
                                then {| sr_id := sr_id x; sr_subs := sr_subs x; sr_att := sr_att x;
                                        sr_closed := sr_closed x; sr_joined := sr_joined x; sr_busy := sr_busy x;
                                        sr_off := sr_off x ++ [(f, u)]; sr_pulled := sr_pulled x;
@@ -180,7 +215,7 @@ Definition spec_label (cur : option Z) (rs : list srd) (l : label) (pulled : opt
       match find_srd r rs, pulled with
       | Some x, Some it =>
           if sr_joined x then None                   (* a callback after RemoveReader returned *)
-          else if negb (memZ (fst it) (sr_subs x)) then None     (* foreign format *)
+          else if negb (memK (fst it) (sr_subs x)) then None     (* foreign format *)
           else Some (cur, upd_srd (fun x => {| sr_id := sr_id x; sr_subs := sr_subs x; sr_att := sr_att x;
                                       sr_closed := sr_closed x; sr_joined := sr_joined x; sr_busy := true;
                                       sr_off := sr_off x; sr_pulled := sr_pulled x ++ [it]; sr_done := sr_done x;
@@ -226,26 +261,28 @@ Fixpoint spec_snap (qsize : Z) (l : label) (rs : list srd) (snap : list (Z * Z *
       end
   end.
 
-Fixpoint spec_walk (qsize : Z) (cur : option Z) (rs : list srd) (steps : list ostep) : option (list srd) :=
+Fixpoint spec_walk (qsize : Z) (pre : list (Z * fkey)) (cur : option Z) (rs : list srd) (steps : list ostep)
+  : option (list srd) :=
   match steps with
   | [] => Some rs
-  | Sto l p snap0 _ :: t =>
-      let pulled := un_pull p in let snap := map un_snap snap0 in
-      match spec_label cur rs l pulled with
+  | Sto l0 p snap0 _ :: t =>
+      let l := un_label l0 in let pulled := un_pull p in let snap := map un_snap snap0 in
+      match spec_label pre cur rs l pulled with
       | Some (cur1, rs1) =>
           match spec_snap qsize l rs1 snap with
-          | Some rs2 => spec_walk qsize cur1 rs2 t
+          | Some rs2 => spec_walk qsize pre cur1 rs2 t
           | None => None
           end
       | None => None
       end
+  | Reg r m f _ :: t => spec_walk qsize (pre ++ [(r, (m, f))]) cur rs t    (* the reader asks for (m, f) *)
   end.
 
-Definition spec_final (rs : list srd) (final : list (Z * list (Z * Z) * bool)) : bool :=
+Definition spec_final (rs : list srd) (final : list (Z * list item * bool)) : bool :=
   forallb (fun x =>
              (* order, nothing twice, nothing that was not written for this reader *)
              is_subseq (sr_pulled x) (sr_off x) && nodupb (map snd (sr_pulled x)) &&
-             forallb (fun it => memZ (fst it) (sr_subs x)) (sr_pulled x)) rs &&
+             forallb (fun it => memK (fst it) (sr_subs x)) (sr_pulled x)) rs &&
   forallb (fun e => match e with
                     | (r, del, joined) =>
                         match find_srd r rs with
@@ -257,7 +294,7 @@ Definition spec_final (rs : list srd) (final : list (Z * list (Z * Z) * bool)) :
 Definition spec_fail (c : case) : bool :=
   match c with
   | Hist fmts qsize steps final =>
-      match spec_walk qsize None [] steps with
+      match spec_walk qsize [] None [] steps with
       | Some rs => negb (spec_final rs (map un_fin final))
       | None => true
       end
